@@ -28,7 +28,7 @@ LEVEL_TEXT = (
     "fragments that also match internal module names."
 )
 LEVEL_NOTE = "Internal = module_path's own name, anything below it, and its ancestors (component-wise). External side is checked as 'required present / excluded absent'; further external nodes are only counted."
-LEVEL_TEXT += " Include-mode scans with a FILE exclusion built from an imported external's name. Extra shards scan random projects (a quarter of them wide and deep) under independently drawn options - file exclusions, level limit, kept externals with external exclusions, module_path below the root, module-object entry point - judged by the same deciding steps."
+LEVEL_TEXT += " Projects with 1000-3000 import statements are part of every run. Include-mode scans with a FILE exclusion built from an imported external's name. Extra shards scan random projects (a quarter of them wide and deep) under independently drawn options - file exclusions, level limit, kept externals with external exclusions, module_path below the root, module-object entry point - judged by the same deciding steps."
 RULE = (
     "an evaluation = one scan in one configuration; a case = one tree with all its configurations; non-trivial = the tree has external imports and "
     "at least one pattern matched an external or an internal name; distinct = distinct (tree digest, configuration)"
@@ -43,19 +43,40 @@ EXT_POOL = trees.EXTERNALS + ["dup.dup", "twice.twice.x", "projx.y", "proj_other
 
 
 def plan(tier, seed):
-    return [{"kind": "trees", "n": 40 if tier == "quick" else 1500} for _ in range(10 if tier == "quick" else 16)]
+    shards = [{"kind": "trees", "n": 40 if tier == "quick" else 1500} for _ in range(10 if tier == "quick" else 16)]
+    # projects with 1000+ import statements in total (size-gated code paths of the import filter / graph generator)
+    shards += [{"kind": "big", "n": 3 if tier == "quick" else 40} for _ in range(2 if tier == "quick" else 4)]
+    return shards
 
 
 def run_shard(spec, acc):
     rnd = random.Random(spec["seed"])
     for i in range(spec["n"]):
-        tspec = gen(rnd)
+        tspec = gen(rnd, big=spec.get("kind") == "big")
         one_tree(tspec, acc, rnd, sample=(i % 7 == 0))
 
 
-def gen(rnd):
+def gen(rnd, big=False):
     spec = trees.random_project(rnd, depth=rnd.choice([2, 3, 4]), imports_per_file=(0, 3), externals=0.0, dangling=0.0, name_imports=0.25)
     files = sorted(f for f in spec["files"] if f.endswith(".py"))
+    if big:
+        # 1000-3000 import statements in one project: many files importing the same few internal and external modules
+        mods = [trees.mod_of("proj", f) for f in files]
+        mods = [m for m in mods if all(p.isidentifier() for p in m.split("."))]
+        total = rnd.randint(1050, 3000)
+        per = total // max(1, len(files)) + 1
+        for f in files:
+            me = trees.mod_of("proj", f)
+            cands = [m for m in mods if m != me and not me.startswith(m + ".")] or ["proj"]
+            lines = []
+            for _ in range(per):
+                if rnd.random() < 0.6:
+                    lines.append("import " + rnd.choice(cands))
+                else:
+                    e = rnd.choice(EXT_POOL)
+                    lines.append(f"import {e}" if "." not in e or rnd.random() < 0.6 else "from {} import {}".format(*e.rpartition(".")[::2]))
+            spec["files"][f] = spec["files"][f] + "\n".join(lines) + "\n"
+        spec["_big"] = per * len(files)
     for f in files:
         extra = []
         for _ in range(rnd.randint(0, 3)):
@@ -136,7 +157,12 @@ def one_tree(tspec, acc, rnd, sample=False, forced=None):
     try:
         dirs = trees.all_dirs(tspec)
         hint = tspec.pop("_mp_hint", None)
+        big = tspec.pop("_big", 0) >= 1000
         mp_rel = forced["mp"] if forced else (hint if hint and rnd.random() < 0.7 else rnd.choice(dirs) if rnd.random() < 0.35 else "")
+        if big and not forced and rnd.random() < 0.8:
+            mp_rel = ""
+        if big and not mp_rel:
+            acc.count("trees_with_1000+_import_statements")
         if hint and mp_rel == hint:
             acc.count("module_path_with_imported_prefix_sibling")
         mp_abs = os.path.join(root, mp_rel) if mp_rel else root
@@ -237,7 +263,7 @@ def replay(case, acc):
 
 def floors(acc, tier):
     why = []
-    for c, n in (("config_comparisons", 200), ("patterns_matching_internal_names", 20), ("patterns_matching_externals", 20), ("nested_external_nodes", 50), ("include_scans_with_file_exclusion_matching_an_external_name", 50), ("module_path_with_imported_prefix_sibling", 30)):
+    for c, n in (("config_comparisons", 200), ("patterns_matching_internal_names", 20), ("patterns_matching_externals", 20), ("nested_external_nodes", 50), ("include_scans_with_file_exclusion_matching_an_external_name", 50), ("module_path_with_imported_prefix_sibling", 30), ("trees_with_1000+_import_statements", 4)):
         if acc.counters[c] < n:
             why.append(f"{c}: only {acc.counters[c]}")
     if acc.counters["scan_model_errors"]:
